@@ -392,10 +392,29 @@ func (k *c12Case) refreshMounts() {
 	}
 }
 
+// mountInside: a mount requested by namespace nsi at a path that lies INSIDE one of its child namespaces (first segment =
+// the child's name): refused — otherwise requests made in the child would be served by the parent's mount and storage.
+func (k *c12Case) mountInside(nsi, child int) {
+	root := k.toks[0].token
+	rel := strings.TrimPrefix(k.nss[child].path, k.nss[nsi].path) + "inside"
+	resp, err, _ := k.do(vhRootCtx(), logical.UpdateOperation, k.nss[nsi].path+"sys/mounts/"+rel, root, map[string]any{"type": "c12rec"})
+	cl := c12Class(resp, err)
+	res := "refused"
+	if cl == "ok" {
+		res = "ok!VIOL:namespace " + k.nss[nsi].path + " was allowed to create the mount " + rel + "/, whose path lies inside its child namespace " + k.nss[child].path + "#mount-inside-child-namespace"
+		_, _, _ = k.do(vhRootCtx(), logical.DeleteOperation, k.nss[nsi].path+"sys/mounts/"+rel, root, nil)
+	}
+	k.out.Op(res, "mountinside", vh.HexS(k.nss[nsi].path), vh.HexS(rel+"/"))
+}
+
 func (k *c12Case) addMount(nsi int, path string) {
 	root := k.toks[0].token
 	resp, err, _ := k.do(vhRootCtx(), logical.UpdateOperation, k.nss[nsi].path+"sys/mounts/"+strings.TrimSuffix(path, "/"), root, map[string]any{"type": "c12rec"})
-	k.must("mount "+k.nss[nsi].path+path, resp, err)
+	if cl := c12Class(resp, err); cl != "ok" {
+		// a mount the tree has room for was refused: an outcome (the model answers ok), not a harness failure
+		k.out.Op(cl+"!VIOL:the mount "+k.nss[nsi].path+path+" was refused although neither a mount nor a namespace occupies that path#mount-refused-without-conflict", "mount", vh.HexS(k.nss[nsi].path), vh.HexS(path), strconv.Itoa(len(k.mounts)+1))
+		return
+	}
 	me := k.c.router.MatchingMountEntry(k.nsCtx(nsi), path)
 	if me == nil || me.Path != path {
 		k.t.Fatalf("mount entry for %s%s not found", k.nss[nsi].path, path)
@@ -856,6 +875,14 @@ func TestVerifC12Confine(t *testing.T) {
 		if sealIdx >= 0 {
 			sealAt = nreq/3 + r.Intn(nreq/6)
 			unsealAt = sealAt + nreq/4 + r.Intn(nreq/6)
+		}
+		// directed: every (parent, direct or indirect child) pair — a mount of the parent inside the child's path is refused
+		for _, par := range k.nss {
+			for _, ch := range k.nss {
+				if ch.ord != par.ord && strings.HasPrefix(ch.path, par.path) && !par.sealable && !ch.sealable {
+					k.mountInside(par.ord, ch.ord)
+				}
+			}
 		}
 		remountAt := -1
 		if ci%5 == 0 || ci%5 == 2 { // (not in the same-named chain: MountConflict reports a false "path in use at t/" there)
